@@ -119,6 +119,7 @@ class Ctx:
         self.max_steps_call = None
         self.extra = {}
         self.viol_keys = collections.Counter()
+        self.ex = None                            # the running case's op executor (transcript of direct calls)
 
     # --- recording -------------------------------------------------------
     def ev(self, clause, n=1):
@@ -376,6 +377,9 @@ class Monitor:
                     call = Call(clsname, name, None, args[1:], kwargs)
                 else:
                     call = Call(clsname, name, args[0], args[1:], kwargs)
+                ex = ctx.ex
+                if ex is not None and not ex.in_run:
+                    ex.record_direct(clsname, name, None if name in ('__init__', '__new__') else call.recv, call.args, kwargs)
                 states = []
                 for c in cs:
                     try:
